@@ -256,6 +256,7 @@ def main(argv=None):
     vac_fail = []
     repdir = os.path.join(VERIF, "evidence", "replays")
     os.makedirs(repdir, exist_ok=True)
+    sat_obls = []
     for o in ctx.obls:
         r = o.result or {"verdict": "unknown", "backend": "none", "time": 0}
         solver_s += r.get("time", 0)
@@ -271,18 +272,26 @@ def main(argv=None):
         if r["verdict"] == "unknown":
             undecided.append((o.name, f"solver unknown: {r.get('reason')}"))
             continue
-        # sat: counter-model
-        rp = None
-        verdict = None
-        detail = None
-        wclass = o.info.get("witness_class")
-        fn = getattr(mod, "concretise", None)
-        payload = None
-        if fn is not None and o.replay:
+        sat_obls.append(o)
+
+    # counter-models: concretise and replay on the real code (at most MAXR, in parallel;
+    # one per function first).  Further refuted obligations are listed in the evidence.
+    MAXR = 10
+    seen_f, first, rest = set(), [], []
+    for o in sat_obls:
+        (first if o.func not in seen_f else rest).append(o)
+        seen_f.add(o.func)
+    chosen = (first + rest)[:MAXR]
+    not_replayed = [o.name for o in (first + rest)[MAXR:]]
+    fn_conc = getattr(mod, "concretise", None)
+
+    def do_replay(o):
+        r = o.result
+        payload, detail, verdict = None, None, None
+        if fn_conc is not None and o.replay:
             try:
-                payload = fn(ctx, o, r)
+                payload = fn_conc(ctx, o, r)
             except Exception as ex:
-                payload = None
                 detail = f"concretiser failed: {ex}"
         if payload is not None:
             res = run_replay(o.replay, payload)
@@ -291,18 +300,26 @@ def main(argv=None):
                 verdict = "replay-error"
             elif res.get("violated"):
                 verdict = "confirmed"
-                wclass = res.get("witness_class", wclass)
             else:
                 verdict = "spurious"
+        return o, payload, detail, verdict
+
+    from concurrent.futures import ThreadPoolExecutor
+    with ThreadPoolExecutor(8) as tp:
+        replayed = list(tp.map(do_replay, chosen))
+    for o, payload, detail, verdict in replayed:
+        r = o.result
+        wclass = o.info.get("witness_class")
+        if verdict == "confirmed" and isinstance(detail, dict):
+            wclass = detail.get("witness_class", wclass)
         fname = os.path.join(repdir, f"{prop}_{hashlib.sha256(o.name.encode()).hexdigest()[:10]}.json")
         doc = {"property": prop, "obligation": o.name, "function": o.func, "kind": o.kind,
                "solver": {k: v for k, v in r.items() if k != "model"}, "model": r.get("model"),
                "evals": r.get("evals"), "replay_kind": o.replay, "replay_input": payload,
                "replay_result": detail, "verdict": verdict or "no-failing-input-found",
-               "witness_class": wclass}
+               "witness_class": wclass, "other_refuted_obligations_not_replayed": not_replayed}
         if verdict == "spurious":
             undecided.append((o.name, "counter-model did not replay on the real code (abstraction imprecision)"))
-            doc["verdict"] = "spurious"
             json.dump(doc, open(fname, "w"), indent=1, default=str)
             continue
         k = match_known(prop, wclass, known) if wclass else None
@@ -311,6 +328,13 @@ def main(argv=None):
             continue
         json.dump(doc, open(fname, "w"), indent=1, default=str)
         violations.append((fname, "" if verdict == "confirmed" else " no-failing-input-found", o.name))
+    if not_replayed and not violations and not known_lines:
+        # all replayed models were spurious but more refuted obligations exist: report the first
+        o = next(x for x in sat_obls if x.name == not_replayed[0])
+        fname = os.path.join(repdir, f"{prop}_{hashlib.sha256(o.name.encode()).hexdigest()[:10]}.json")
+        json.dump({"property": prop, "obligation": o.name, "function": o.func, "solver": {k: v for k, v in o.result.items() if k != "model"},
+                   "model": o.result.get("model"), "verdict": "no-failing-input-found"}, open(fname, "w"), indent=1, default=str)
+        violations.append((fname, " no-failing-input-found", o.name))
 
     # bounded stand-ins / conformance (run on the real code) -------------
     bounded_results = []
@@ -370,6 +394,7 @@ def main(argv=None):
                            "expectations": [{"what": d, "ok": ok} for d, ok in ctx.expectations]},
         "bounded_standins": [{k: v for k, v in b.items() if k not in ("failures",)} for b in bounded_results],
         "known_findings_reported": known_lines,
+        "refuted_obligations": [o.name for o in sat_obls],
         "samples": samples,
         "explanation": getattr(mod, "EXPLANATION", ""),
         "notes": ctx.notes,
